@@ -746,3 +746,17 @@ Definition wrap32 (z : Z) : Z := (z + 2 ^ 31) mod 2 ^ 32 - 2 ^ 31.
 Theorem wrapped_radix_check_refuted : exists r,
   spec_throws 1 (AFin r 0) = Some true /\ ((wrap32 r <? 2) || (36 <? wrap32 r)) = false.
 Proof. exists 4294967312. vm_compute. split; reflexivity. Qed.
+
+(* ------------------------------------------------------------------ *)
+(* in / instanceof convert what ES5 converts, in its order (finite domain) *)
+Theorem order_as_es5 : forall op l r, model_order op l r = spec_order op l r.
+Proof.
+  intros op l r. unfold model_order, spec_order. destruct (op =? 0); destruct l; destruct r; reflexivity.
+Qed.
+
+(* converting the left operand of `in` first is a different behaviour *)
+Definition in_left_first (l : lop) (r : rop) : Z * list Z :=
+  let '(lg, thr) := l_tostring l in
+  if thr then (90, lg) else match r with RPrim => (6, lg) | RObj => (1, lg) | _ => (0, lg) end.
+Theorem in_left_first_refuted : exists l r, in_left_first l r <> spec_order 0 l r.
+Proof. exists LThrow, RPrim. vm_compute. discriminate. Qed.
